@@ -269,3 +269,19 @@ func TestGrid(t *testing.T) {
 	}
 	core.ExhaustiveDone("size grid: widths 1..40 x heights 1..80, one generated parameter set per cell", 3200)
 }
+
+// TestBig: the free generator's cases at sizes where a dimension or the sample count crosses a
+// power of two (255..257, 511..513, 1023..1025, 4095..4097 with a short other side; both sides
+// 250..300, i.e. more than 2^16 samples).
+func TestBig(t *testing.T) {
+	g := rapid.Custom(func(t *rapid.T) *Case {
+		c := Gen(t)
+		d := gen.BigGeometry().Draw(t, "big")
+		c.Img.Resize(d[0], d[1])
+		if c.Frames > 2 {
+			c.Frames = 2
+		}
+		return c
+	})
+	core.RunSharded(t, ID, 24, 600, g, Check)
+}
